@@ -162,10 +162,16 @@ Section Gen.
   Qed.
 
   Lemma Strict_read_exact n : Strict (bad _) (read_exact n).
-  Proof. change (read_exact n) with (cut n (Err ReadError)). apply Strict_cut. apply bad_read. Qed.
+  Proof.
+    apply Strict_ext_p. intros p. exists (cut n (Err ReadError)). split; [apply Strict_cut; apply bad_read|].
+    intros i. apply read_exact_eq.
+  Qed.
 
   Lemma Strict_take_slice n : bad _ (@Panic (list byte * list byte * N) PBounds) -> Strict (bad _) (take_slice n).
-  Proof. intros H. change (take_slice n) with (cut n (Panic PBounds)). apply Strict_cut. exact H. Qed.
+  Proof.
+    intros H. apply Strict_ext_p. intros p. exists (cut n (Panic PBounds)). split; [apply Strict_cut; exact H|].
+    intros i. apply take_slice_eq.
+  Qed.
 
   Lemma Strict_rrepeat (r : R val) k : Strict (bad _) r -> Strict (bad _) (rrepeat r k).
   Proof.
@@ -215,7 +221,7 @@ Section Gen.
     - exists (rbind (take_slice (pad_align_to p u))
                 (fun _ => if (base + (p + pad_align_to p u)) mod u =? 0 then rret tt else rerr AlignmentError)).
       split; [repeat sstep|].
-      intros i. unfold ralign, rbind, take_slice, rret, rerr. rewrite E.
+      intros i. unfold rbind. rewrite ralign_eq, take_slice_eq. unfold rret, rerr. cbv zeta. rewrite E.
       destruct (pad_align_to p u <=? nlen i); [|reflexivity].
       destruct ((base + (p + pad_align_to p u)) mod u =? 0); reflexivity.
   Qed.
